@@ -199,7 +199,7 @@ def worker(task, col):
     D.Case.rebuild_same = lambda self: self.b   # mappings are initialised against the same source objects
     if task.get('replay'):
         v = task['replay']['violation']
-        check_case(v['source_spec'], col, v['seed_parts'], 'replay')
+        common.guard(col, check_case, v['source_spec'], col, v['seed_parts'], 'replay')
         return
     for i in range(task['lo'], task['hi']):
         rnd = gen.rng_for('C20', task['seed'], i)
@@ -211,7 +211,7 @@ def worker(task, col):
         else:
             sp = gen.gen_spec(rnd, p_incompat=.3, allow=('shared_option',), p_opt_existing=.4, p_multi_choice=.3)
         n0 = len(col.violations)
-        check_case(sp, col, ('C20', task['seed'], i))
+        common.guard(col, check_case, sp, col, ('C20', task['seed'], i))
         for v in col.violations[n0:]:
             v['source_spec'] = sp
             v['seed_parts'] = ['C20', task['seed'], i]
